@@ -317,7 +317,6 @@ int main(int argc, char* const* argv)
     script_lines = (char**)malloc(sizeof(char*) * count);
 
     int i = 0;
-    char buf[1024];
     if (env->sigversion == SigVersion::TAPSCRIPT) {
         for (const auto& s : tc_desc) {
             script_lines[i++] = strdup(strprintf("#%04d %s", i, s).c_str());
@@ -329,14 +328,10 @@ int main(int argc, char* const* argv)
         if (header != "") script_lines[i++] = strdup(header.c_str());
         it = script->begin();
         while (script->GetOp(it, opcode, vchPushValue)) {
-            char* pbuf = buf;
-            pbuf += snprintf(pbuf, 1024, "#%04d ", i);
-            if (vchPushValue.size() > 0) {
-                snprintf(pbuf, 1024 + pbuf - buf, "%s", HexStr(std::vector<uint8_t>(vchPushValue.begin(), vchPushValue.end())).c_str());
-            } else {
-                snprintf(pbuf, 1024 + pbuf - buf, "%s", GetOpName(opcode).c_str());
-            }
-            script_lines[i++] = strdup(buf);
+            // (no fixed-size buffer: a 520-byte push is 1040 hex digits)
+            const std::string text = vchPushValue.size() > 0 ? HexStr(std::vector<uint8_t>(vchPushValue.begin(), vchPushValue.end())) : GetOpName(opcode);
+            script_lines[i] = strdup(strprintf("#%04d %s", i, text).c_str());
+            ++i;
         }
     }
 
